@@ -27,6 +27,15 @@ KEY_MAP = "C05:map-placeholder-lexicographic-max"
 KEY_REPL_CARRIED = "C05:replicated-carried-producer-unknown-at-next-iteration"
 KEY_SEQ_SUB = "C05:import-rewrite-substitutes-references-sequentially"
 KEY_NAMESAKE = "C05:looped-component-matched-by-name-ignoring-stage"
+KEY_LOOPOUT_LATEST = "C05:loopoutput-true-reference-names-latest-instance-only"
+
+
+def classify_members(method, k, tr, exp_latest):
+    """KEY_LOOPOUT_LATEST iff the aggregate is a :loopoutput, more than one instance exists and the producers
+    named are exactly the single instance of the newest iteration (what a non-aggregate reference answers)"""
+    if method == "loopoutput" and k >= 1 and tr is not None and [tuple(x) for x in tr] == [exp_latest]:
+        return KEY_LOOPOUT_LATEST
+    return None
 
 
 def sequential_substitution(plan, prefix="-v ", suffix=" --tag=%(loopIteration)s"):
@@ -200,6 +209,14 @@ class ShapeRun:
                     node, mine[0].absoluteReference, got.replace(self.inst, "$I"), k),
                           {"node": node, "reference": mine[0].absoluteReference, "got": got.replace(self.inst, "$I"),
                            "expected": exp.replace(self.inst, "$I")})
+            tr = mine[0].true_reference_to_component_id(g)
+            exp_tr = sorted((tst, "%d#%s" % (i, tn)) for i in range(k + 1))
+            w.count("clause_inloop_aggregate_members")
+            if tr is None or sorted(tuple(x) for x in tr) != exp_tr:
+                self.viol("inloop_aggregate_members", k, "instance %s: %s covers %s expected %s" % (
+                    node, mine[0].absoluteReference, tr, exp_tr),
+                          {"node": node, "reference": mine[0].absoluteReference, "got": tr, "expected": exp_tr},
+                          classify_members(method, k, tr, (tst, "%d#%s" % (k, tn))))
             need = set(t.instance_id(tn, i) for i in range(it + 1))
             w.count("clause_inloop_aggregate_edge")
             if not need <= set(got_pred):
@@ -434,12 +451,13 @@ class ShapeRun:
                                    "expected": exp.replace(self.inst, "$I")}, key)
                     # membership of the aggregate
                     tr = ref.true_reference_to_component_id(g)
-                    if method == "loopref":
-                        exp_tr = sorted((tst, "%d#%s%s" % (i, tn, sfx)) for i in range(k + 1))
-                        w.count("clause_aggregate_members")
-                        if tr is None or sorted(tuple(x) for x in tr) != exp_tr:
-                            self.viol("aggregate_members", k, "%s covers %s expected %s" % (rs, tr, exp_tr),
-                                      {"reference": rs, "got": tr, "expected": exp_tr})
+                    exp_tr = sorted((tst, "%d#%s%s" % (i, tn, sfx)) for i in range(k + 1))
+                    w.count("clause_aggregate_members")
+                    w.count("clause_aggregate_members_" + method)
+                    if tr is None or sorted(tuple(x) for x in tr) != exp_tr:
+                        self.viol("aggregate_members", k, "%s covers %s expected %s" % (rs, tr, exp_tr),
+                                  {"reference": rs, "got": tr, "expected": exp_tr},
+                                  classify_members(method, k, tr, (tst, "%d#%s%s" % (k, tn, sfx))))
                 else:
                     w.count("clause_outside_resolve")
                     if k >= 10:
